@@ -378,11 +378,10 @@ Definition open_dgram (key : option Z) (d : dgram) : res (list wmsg) :=
         | _ => Err EOther
         end
     | None =>
-        if negb (h_count h =? 1) || negb (is_hello (h_type h)) then Err EPacket
-        else match d_body d with
-             | Clear p => if h_len h =? len p then Ok p else Err EPacket
-             | _ => Err EPacket
-             end
+        match d_body d with
+        | Clear p => if h_len h =? len p then Ok p else Err EPacket
+        | _ => Err EPacket
+        end
     end;
   decode_msgs (h_type h) (h_count h) p.
 
@@ -501,7 +500,11 @@ Fixpoint recv_msgs (c : conn) (now : Z) (ms : list wmsg) (orcs : list hs_oracle)
   end.
 
 (* ConnectionBase._recv_datagram *)
+Definition keyless_refuses (c : conn) (h : header) : bool :=
+  negb (is_some (c_key c)) && (negb (h_count h =? 1) || negb (is_hello (h_type h))).
+
 Definition recv (c : conn) (now : Z) (d : dgram) (orcs : list hs_oracle) : conn * list out :=
+  if keyless_refuses c (d_hdr d) then (c <| c_dropped := c_dropped c + 1 |>, [ORet false]) else
   match open_dgram (c_key c) d with
   | Err _ => (c <| c_dropped := c_dropped c + 1 |>, [ORet false])
   | Ok ms =>
